@@ -87,8 +87,12 @@ if _cert:
         while True:
             time.sleep(0.2)
             try:
-                from experimaestro.scheduler.base import experiment
-
+                # never import here: importing from a second thread while the main thread is still importing the
+                # package makes the main thread see half-initialised modules
+                mod = sys.modules.get("experimaestro.scheduler.base")
+                experiment = getattr(mod, "experiment", None)
+                if experiment is None:
+                    continue
                 xp = experiment.CURRENT
                 info = {"pid": os.getpid(), "t": time.time(), "xp": xp is not None}
                 if xp is not None and getattr(xp, "central", None) is not None:
